@@ -28,11 +28,13 @@ func (o c19Op) String() string { return fmt.Sprintf("%s(%s,%s)", o.kind, o.tag, 
 
 var c19Tags = []string{"-", "en", "fr"}
 
+var c19Texts = []string{"a", "b"}
+
 func c19Ops() []c19Op {
 	var ops []c19Op
 	for _, k := range []string{"set", "append", "add"} {
 		for _, t := range c19Tags {
-			for _, v := range []string{"a", "b"} {
+			for _, v := range c19Texts {
 				ops = append(ops, c19Op{k, t, v})
 			}
 		}
@@ -299,7 +301,9 @@ func c19Scale(c *engine.Ctx) {
 	}
 }
 
-func c19Lists() [][]c19Pair {
+func c19Lists() [][]c19Pair { return c19ListsOver([]string{"a", "b"}) }
+
+func c19ListsOver(texts []string) [][]c19Pair {
 	var out [][]c19Pair
 	var rec func(cur []c19Pair, used map[string]bool)
 	rec = func(cur []c19Pair, used map[string]bool) {
@@ -308,7 +312,7 @@ func c19Lists() [][]c19Pair {
 			if used[t] {
 				continue
 			}
-			for _, v := range []string{"a", "b"} {
+			for _, v := range texts {
 				used[t] = true
 				rec(append(cur, c19Pair{t, v}), used)
 				used[t] = false
@@ -353,8 +357,62 @@ func init() {
 	})
 }
 
+// c19ByteClasses: the container stores byte strings, whatever they are - texts that spell a tag in brackets (what String()
+// prints for a tagged entry), texts that end in a cut multi-byte sequence, ill-formed bytes, the empty text.
+func c19ByteClasses(c *engine.Ctx) {
+	texts := []string{"Bob[en]", "caf\xc3", "5 \xe2\x82", "\xf0\x9f\x98", "it\x92s", "\x80", "[-]", "x\x00y"}
+	saved := c19Texts
+	c19Texts = texts
+	ops := c19Ops()
+	c19Texts = saved
+	for _, st := range c19Starts {
+		for _, o1 := range ops {
+			st, o1 := st, o1
+			c.Do("C19|ops", func() string {
+				return fmt.Sprintf("start %s; %s; then every continuation up to depth 2 (byte-class texts)", st.name, o1)
+			}, func(t *engine.T) {
+				var n int64
+				run := func(seq []c19Op) {
+					cont := st.mk()
+					m := c19Model(cont)
+					hist := "start " + st.name
+					for _, op := range seq {
+						hist += "; " + op.String()
+						m = c19Step(t, hist, &cont, m, op)
+					}
+					n++
+				}
+				run([]c19Op{o1})
+				for _, o2 := range ops {
+					run([]c19Op{o1, o2})
+				}
+				t.AddEvals(n-1, n-1)
+			})
+		}
+	}
+	lists := c19ListsOver([]string{"Bob", "Bob[en]", "Bob[fr]", "Bob[-]"})
+	for ai, a := range lists {
+		a := a
+		c.Do("C19|equals", func() string {
+			return "NaturalLanguageValues.Equals of " + c19Fmt(a) + " against every list over texts that spell tags in brackets"
+		}, func(t *engine.T) {
+			na := c19Build(a)
+			for bi, b := range lists {
+				got, want := na.Equals(c19Build(b)), c19Set(a) == c19Set(b)
+				t.Ops(1)
+				if got != want {
+					t.Fail(fmt.Sprintf("C19|equals|bracket-texts|len=%d|got=%v", len(a), got), "%s.Equals(%s) = %v (lists #%d, #%d)", c19Fmt(a), c19Fmt(b), got, ai, bi)
+				}
+			}
+			t.AddEvals(int64(len(lists))-1, int64(len(lists))-1)
+			t.Distinct(len(a) > 0)
+		})
+	}
+}
+
 func c19Run(c *engine.Ctx) {
 	c19Scale(c)
+	c19ByteClasses(c)
 	ops := c19Ops()
 	depth := 4
 	if !c.Quick() {
